@@ -277,7 +277,8 @@ def run(ctx):
         case = {"type": "align", "continuum": cspec, "dissim": dspec, "windows": windows}
         if i % 6 == 1 and cspec.get("family") != "coarse":
             case["session"] = ac.gen_edit_ops(rng, cspec, labels or cases.LABELS_SMALL, rng.randint(1, 3))
-            case["windows"] = windows[:2]
+            # one window size asked again and again (the very same call before and after each edit), or two alternating ones
+            case["windows"] = [rng.choice(windows)] if rng.random() < 0.6 else rng.sample(windows, min(2, len(windows)))
         ctx.begin_case(case, nontrivial=nunits >= 3)
         ctx.observe("family", cspec["family"])
         ctx.observe("annotators", n)
